@@ -7,24 +7,30 @@ from walkgen import hx, unhx, parse_answer, admissible, base_path
 
 class Case:
     __slots__ = ("mode", "base", "expr", "link", "mn", "mx", "stack", "spec", "fs", "labels", "impl", "model", "skip",
-                 "head", "f", "mf", "mhead", "faults")
+                 "head", "f", "mf", "mhead", "faults", "owned")
 
     def req(self):
-        return "W %s %s %s %s %s %s %s %s" % (self.mode, hx(self.base), hx(self.expr) if self.mode == "g" else "-", self.link,
+        # an owned glob (FromStr) is walked through mode `o`; to the model it is the same glob
+        mode = "o" if self.mode == "g" and getattr(self, "owned", False) else self.mode
+        return "W %s %s %s %s %s %s %s %s" % (mode, hx(self.base), hx(self.expr) if self.mode == "g" else "-", self.link,
                                             self.mn, self.mx, self.stack, self.spec)
 
     def clone(self, **kw):
         c = Case()
         for k in ("mode", "base", "expr", "link", "mn", "mx", "stack", "spec", "fs", "labels", "faults"):
             setattr(c, k, getattr(self, k))
+        c.owned = getattr(self, "owned", False)
         for k, v in kw.items():
             setattr(c, k, v)
         c.skip = False
         return c
 
     def describe(self):
-        return {"mode": self.mode, "base": self.base, "glob": self.expr, "link": self.link, "min": self.mn, "max": self.mx,
-                "stack": self.stack, "tree": self.spec}
+        d = {"mode": self.mode, "base": self.base, "glob": self.expr, "link": self.link, "min": self.mn, "max": self.mx,
+             "stack": self.stack, "tree": self.spec}
+        if getattr(self, "owned", False):
+            d["owned"] = True
+        return d
 
 
 def gen_cases(seed, n, faults=False, stack=None, bounds=None, mode=None, link=None, glob_share=0.8):
@@ -72,6 +78,9 @@ def gen_cases(seed, n, faults=False, stack=None, bounds=None, mode=None, link=No
         c.labels = {"base": blabel, "glob": gshape, "stack": sshape, "negations": nkinds, "basedir": basedir, "vocab": vocab}
         c.faults = faults
         c.skip = False
+        # a quarter of the glob walks use a glob that OWNS its expression (str::parse); the anchor and the component
+        # programs are derived from its token tree at walk time
+        c.owned = (m == "g" and rng.random() < 0.25)
         out.append(c)
     return out
 
@@ -257,4 +266,5 @@ def case_from(desc):
     c.labels = {"base": "replay", "glob": "replay", "stack": "replay", "negations": [], "basedir": None, "vocab": []}
     c.faults = any(v[0] == "u" for v in nodes.values())
     c.skip = False
+    c.owned = bool(desc.get("owned"))
     return c
